@@ -36,6 +36,7 @@ pub fn random_html_case(rng: &mut Rng, contexts: &[Ctx], exclude: &[&str], allow
     if !contexts.is_empty() && rng.chance(1, 4) {
         opts.context = Some(rng.pick(contexts).clone());
         opts.context_allows_scripting = opts.scripting;
+        opts.fragment_form = rng.chance(1, 4);
     }
     if rng.chance(1, 10) {
         opts.iframe_srcdoc = true;
